@@ -460,6 +460,51 @@ def run_static_memo(prog, rep):
                            sname, g.callee.get('name'), ', '.join(x.src(20) for x in real_args(g)), ' / '.join(missing),
                            ', '.join(x.src(20) for x in real_args(g) if x.src(30) not in missing) or 'other arguments', ' / '.join(missing)))
     rule.ok('static-locals|scan', 'src', 'all functions', '%d function-static variables seen, %d remember a computed result' % (nstat, nmemo), nontrivial=False)
-    if nstat < 3:
-        raise AnalysisBroken('R-MEMO: only %d function-static variables found (anchors: createId generator, unit regexes)' % nstat)
+    if nstat < 1:
+        raise AnalysisBroken('R-MEMO: no function-static variable found at all (anchors: unit regexes, type-name tables)')
+    return rule
+
+
+def run_scale_positions(prog, rep):
+    """scalePositions: a position is multiplied by getSIScaling(position unit, dimension unit) unless one of the units is absent/'none' or both are the very same string"""
+    rule = rep.rule('R-UNIT-SCALEPOS', 'scalePositions multiplies every position by getSIScaling(its unit, dimension unit) unless a unit is missing or "none", or the two strings are equal', floor=1)
+    f = prog.fn('nix::util::scalePositions')
+    it = GenericInterp(prog, watch=lambda n: (n.callee or {}).get('name') in ('getSIScaling',))
+    it.loop_once = True
+    it.loop_fork = False
+    res = it.enumerate(f, this=None, args=[(p['name'],) for p in f.params])
+    pn = [p['name'] for p in f.params]     # starts, ends, units, dim_unit, scaled_starts, scaled_ends
+    U = ('call', 'std::vector<std::basic_string<char>>::operator[]', (pn[2],), ('iter', 'i'))
+    probs = []
+    nscaled = nplain = 0
+    for assign, out, log, fields in res:
+        if out[0] != 'ret':
+            continue
+        stores = [l for l in log if l[0] == 'store' and l[1][0] == 'elem' and l[1][1][0] == 'var' and l[1][1][2] in (pn[4], pn[5])]
+        for s in stores:
+            v = s[3]
+            if not (isinstance(v, tuple) and v[:2] == ('bin', '*')):
+                probs.append('%s[i] is not position * factor (%r)' % (s[1][1][2], v))
+                continue
+            fac = v[3] if pn[0] in repr(v[2]) or pn[1] in repr(v[2]) else v[2]
+            if isinstance(fac, tuple) and fac[:2] == ('call', 'nix::util::getSIScaling'):
+                nscaled += 1
+                if not (len(fac) == 4 and 'units' in repr(fac[2]) and fac[3] == (pn[3],)):
+                    probs.append('getSIScaling is called with %r' % (fac[2:],))
+                continue
+            if fac in (1, 1.0):
+                nplain += 1
+                beyond = [v2 for k, v2 in assign.items() if k[0] == 'cmp' and k[1] == '<' and k[2] == ('iter', 'i') and k[3] == ('call', 'size', (pn[2],))]
+                none_u = [v2 for k, v2 in assign.items() if k[0] == 'cmp' and k[1] == '==' and 'none' in k and pn[2] in repr(k)]
+                none_d = [v2 for k, v2 in assign.items() if k[0] == 'cmp' and k[1] == '==' and 'none' in k and (pn[3],) in k]
+                same = [v2 for k, v2 in assign.items() if k[0] == 'cmp' and k[1] == '==' and (pn[3],) in k and pn[2] in repr(k) and 'none' not in k]
+                if (beyond and beyond[0] is False) or (none_u and none_u[0]) or (none_d and none_d[0]) or (same and same[0]):
+                    continue
+                why = [repr(k)[:90] for k, v2 in assign.items() if v2 and (pn[2] in repr(k) or pn[3] in repr(k)) and 'size' not in repr(k)]
+                probs.append('a position with a unit is left unscaled although the dimension has a unit too (decided by %s): units that differ only in case are different units (ms / Ms, mS / ms)' % (why[:2] or 'nothing'))
+                continue
+            probs.append('factor %r is neither 1 nor getSIScaling(unit, dimension unit)' % (fac,))
+    if nscaled == 0 or nplain == 0:
+        probs.append('paths do not cover scaled and unscaled positions (%d/%d)' % (nscaled, nplain))
+    rule.check(not probs, 'scalePositions|factor', rep.where(f), f.label(), 'factor = getSIScaling(units[i], dim_unit), or 1 when a unit is missing/"none" (%d paths)' % len(res), '; '.join(sorted(set(probs))[:2]))
     return rule
